@@ -171,7 +171,7 @@ contract(
     invariants={0: _inv0, 1: _inv1},
     locals=dict(failed=TSeq(TStr), hashes_to_update=TList(TTuple([TStr, TOpt(HashInfo), FileInfo])), updated_mtimes=TOMap(TStr, TReal)),
     ensures=_post,
-    props=["C05"],
+    props=["C05", "C10", "C02"],
     doc="every removal of the delete pass is guarded with the cache status of what it destroys: an entry by its own OLD "
         "object, the root by ALL entries below it (state=None; entries of one diff are un-nested distinct paths)",
 )
